@@ -136,16 +136,6 @@ func (p *parser) advance() bool {
 	return p.position < len(p.input)
 }
 
-func (p *parser) advanceOnLine() {
-	for {
-		char := p.next()
-		if char != ' ' {
-			p.backup()
-			return
-		}
-	}
-}
-
 func (p *parser) readKeyword() string {
 	start := p.position
 
@@ -408,8 +398,16 @@ func (p *parser) readError(idl *IDL) (*Error, error) {
 		return nil, fmt.Errorf("missing error name")
 	}
 
-	p.advanceOnLine()
+	// The type is optional: rewind if none can be read here.
+	start := p.position
+	comment := p.lastComment.String()
+	p.advance()
 	e.Type = p.readType()
+	if e.Type == nil {
+		p.position = start
+		p.lastComment.Reset()
+		p.lastComment.WriteString(comment)
+	}
 
 	return e, nil
 }
